@@ -1,7 +1,7 @@
 (* Extraction of the executable models.  ExtrOcamlBasic only; no Extract Constant. *)
 From Coq Require Extraction.
 From Coq Require Import ExtrOcamlBasic.
-From Lou Require Model.Hyph Model.HyphSpec Model.Log Model.Resolve Model.Meta Model.Engine Model.BufPlan Gen.GAlloc Model.Finish Model.Back Model.Pass Model.BackPass.
+From Lou Require Model.Hyph Model.HyphSpec Model.Log Model.Resolve Model.Meta Model.Engine Model.BufPlan Gen.GAlloc Model.Finish Model.Back Model.Pass Model.BackPass Model.Reader Model.Image.
 Extraction Language OCaml.
 Extraction "../ocaml/model.ml"
   Hyph.build Hyph.walk Hyph.hyphenate Hyph.split_token HyphSpec.Hyph_spec
@@ -13,4 +13,7 @@ Extraction "../ocaml/model.ml"
   GAlloc.size_passbuf GAlloc.size_posMapping1 GAlloc.size_posMapping2 GAlloc.size_posMapping3
   Finish.finish_fwd Finish.finish_back Finish.cursor_out Finish.encode Finish.typeform_mark Finish.char_to_dots Finish.dots_to_char
   Back.back_run Back.one_to_one Back.defs_only Back.disp_c2d Back.disp_d2c
-  Pass.forward Pass.run_stage Pass.mkPT Pass.mkPR BackPass.backward BackPass.run_bstage.
+  Pass.forward Pass.run_stage Pass.mkPT Pass.mkPR BackPass.backward BackPass.run_bstage
+  Reader.decode Reader.lines_of Reader.tokens Reader.parse_dots Reader.parse_chars
+  Image.check_image Image.allocs_ok Image.ref_ok Image.bucket_ok Image.record_ok Image.pass_ok Image.fwd_before Image.back_before
+  Image.single_before_e Image.fpass_before Image.bpass_before Image.nodup_offs Image.members_allocated Image.build_map Image.arena_alloc Image.arena_init.
